@@ -1020,6 +1020,8 @@ fn main() {
             (7, "new;new;new;new;new;new;new; checked_append 0 1; checked_append 0 2; checked_append 0 3; checked_append 0 4; checked_append 0 5; checked_append 0 6"),
             (9, "new;new;new;new;new;new;new;new;new; checked_append 0 1; checked_append 0 2; checked_append 0 3; checked_append 1 4; checked_append 1 5; checked_append 4 6; checked_append 2 7; checked_append 7 8"),
             (5, "new;new;new;new;new; checked_insert_after 0 1; checked_insert_after 1 2; checked_insert_after 2 3; checked_insert_after 3 4"),
+            (8, "new;new;new;new;new;new;new;new; checked_append 0 1; checked_append 1 2; checked_append 2 3; checked_append 3 4; checked_append 4 5; checked_append 0 6; checked_insert_after 0 7"),
+            (7, "new;new;new;new;new;new;new; checked_prepend 0 1; checked_prepend 0 2; checked_prepend 0 3; checked_insert_before 3 4; checked_prepend 4 5; checked_insert_before 5 6"),
             (8, "new;new;new;new;new;new;new;new; checked_append 0 1; checked_append 0 2; checked_append 1 3; checked_append 1 4; checked_append 2 5; checked_append 2 6; checked_append 6 7; remove 0"),
         ];
         let shaped_budget = budget / 4;
